@@ -315,3 +315,229 @@ Print Assumptions C09_reader_fails_on_failure.
 Print Assumptions C09_channel_fifo.
 Print Assumptions C09_holds.
 Print Assumptions C09_holds_compressed.
+
+(** ** the functions of the model are the ones re-translated from the Rust source on this run
+    (bin/rs2v, sinks-and-sessions mode: Gen/SvsGen.v, Proofs/SvsGenAgree.v).  A rendering returns
+    [Ok (value, receiver afterwards, channel afterwards)]; [live ch] says that the receiver outlives
+    the producer (the models have no failing send); [sent_more ch ms] is [ch] with [ms] sent; for any
+    channel state [send_all ch ms] is [ch] after trying to send [ms] in order and [fits ch k] says
+    that [k] more sends succeed (send_chunk, flush_remaining and write are also stated in that
+    generality: the first failed send ends the call with [Err(BrokenPipe)]).  The
+    body writer / compressor is the oracle [script]: [steps_run] lists the writes its steps make
+    on the sink and whether one of them returned an error.  [decoded] is the oracle for the
+    request body ([Ok id] / does not decode). *)
+From RepeV Require Import Base.GenSvsPrelude Gen.SvsGen Proofs.SvsGenAgree Gen.Tables Proofs.TablesC01 Proofs.SvsTables.
+Local Open Scope N_scope.
+
+Theorem C09_source_translation :
+  match gen_sink_new with Some f => forall ch n, f ch n = Ok (mkSink [] n, ch) | None => True end /\
+  match gen_sink_send_chunk with
+  | Some f => forall ch s,
+      f ch s = Ok (res_map_err (fst (tx_send ch (MChunk (k_buf s)))) IoBrokenPipe, mkSink [] (k_chunk_bytes s),
+                   snd (tx_send ch (MChunk (k_buf s))))
+  | None => True
+  end /\
+  match gen_sink_flush_remaining with
+  | Some f => forall ch s, live ch ->
+      f ch s = Ok (ROk tt, mkSink [] (k_chunk_bytes s),
+                   sent_more ch (match k_buf s with [] => [] | _ :: _ => [MChunk (k_buf s)] end))
+  | None => True
+  end /\
+  match gen_sink_write with
+  | Some f => forall ch s data n, live ch -> k_chunk_bytes s = N.of_nat n -> (0 < n)%nat -> (length (k_buf s) < n)%nat ->
+      f ch s data = Ok (ROk (len_n data), mkSink (snd (sink_write (S (length data)) n (k_buf s) data)) (N.of_nat n),
+                        sent_more ch (map MChunk (fst (sink_write (S (length data)) n (k_buf s) data))))
+  | None => True
+  end /\
+  match gen_sink_flush_remaining with
+  | Some f => forall ch s,
+      let tail := match k_buf s with [] => [] | _ :: _ => [MChunk (k_buf s)] end in
+      f ch s = Ok (if fits ch (length tail) then ROk tt else RErr IoBrokenPipe, mkSink [] (k_chunk_bytes s), send_all ch tail)
+  | None => True
+  end /\
+  match gen_sink_write with
+  | Some f => forall ch s data n, k_chunk_bytes s = N.of_nat n -> (0 < n)%nat -> (length (k_buf s) < n)%nat ->
+      let cs := fst (sink_write (S (length data)) n (k_buf s) data) in
+      f ch s data =
+      if fits ch (length cs)
+      then Ok (ROk (len_n data), mkSink (snd (sink_write (S (length data)) n (k_buf s) data)) (N.of_nat n), send_all ch (map MChunk cs))
+      else Ok (RErr IoBrokenPipe, mkSink [] (N.of_nat n), send_all ch (map MChunk cs))
+  | None => True
+  end /\
+  match gen_sink_flush with Some f => forall ch s, f ch s = Ok (ROk tt, s, ch) | None => True end /\
+  match gen_produce with
+  | Some f => forall ch script opts n, live ch -> o_chunk_bytes opts = N.of_nat n -> (0 < n)%nat ->
+      f ch script opts =
+      let '(ws, failed, rest) := steps_run (steps_of (o_compression opts)) script in
+      Ok (tt, sent_more ch (produce n ws failed), rest)
+  | None => True
+  end /\
+  match gen_session_recv with
+  | Some f => forall s, f s = Ok (fst (recv (s_rx s)), mkSession (snd (recv (s_rx s))) (s_look s) (s_done s))
+  | None => True
+  end /\
+  match gen_session_pull with
+  | Some f => forall s, f s = Ok (pulled_res (fst (session_pull s)), snd (session_pull s))
+  | None => True
+  end /\
+  match gen_table_new with Some f => f = Ok (mkTable 1 []) | None => True end /\
+  match gen_table_get with Some f => forall t id, f t id = Ok (m_get (tb_sessions t) id, t) | None => True end /\
+  match gen_table_remove with
+  | Some f => forall t id, f t id = Ok (tt, mkTable (tb_next_id t) (m_del (tb_sessions t) id))
+  | None => True
+  end /\
+  match gen_next_handle with
+  | Some f => forall decoded h,
+      f decoded h =
+      match decoded with
+      | RErr _ => Ok (ROk (SResp (resp_err ERRC_InvalidBody)), h)
+      | ROk id =>
+          let m := tb_sessions (nh_table h) in
+          Ok (ROk (SResp (fst (next_handler (m_get m id)))),
+              mkHandler (mkTable (tb_next_id (nh_table h)) (store_entry m id (snd (next_handler (m_get m id))))))
+      end
+  | None => True
+  end /\
+  match gen_cancel_handle with
+  | Some f => forall decoded h,
+      f decoded h =
+      Ok (ROk SAck, match decoded with
+                    | ROk id => mkHandler (mkTable (tb_next_id (nh_table h)) (m_del (tb_sessions (nh_table h)) id))
+                    | RErr _ => h
+                    end)
+  | None => True
+  end.
+Proof. exact c09_source_translation. Qed.
+
+Theorem C09_source_translation_model :
+  (forall m id t, m_get (store_entry m id t) id = match m_get m id with Some _ => t | None => None end) /\
+  (forall m id id' t, id' <> id -> m_get (store_entry m id t) id' = m_get m id') /\
+  (forall m id, m_get (m_del m id) id = cancel_handler (m_get m id)) /\
+  (forall n f data buf, (0 < n)%nat -> (length buf < n)%nat -> (length (snd (sink_write f n buf data)) < n)%nat) /\
+  (forall n buf w, sink_writes n buf [w] = sink_write (S (length w)) n buf w) /\
+  (forall n ws failed, open_handler n ws failed = Some (mkSession (produce n ws failed) None false)) /\
+  (forall c ms, live c -> send_all c ms = sent_more c ms /\ (forall k, fits c k = true)).
+Proof. exact c09_source_translation_model. Qed.
+
+Check C09_source_translation :
+  match gen_sink_new with Some f => forall ch n, f ch n = Ok (mkSink [] n, ch) | None => True end /\
+  match gen_sink_send_chunk with
+  | Some f => forall ch s,
+      f ch s = Ok (res_map_err (fst (tx_send ch (MChunk (k_buf s)))) IoBrokenPipe, mkSink [] (k_chunk_bytes s),
+                   snd (tx_send ch (MChunk (k_buf s))))
+  | None => True
+  end /\
+  match gen_sink_flush_remaining with
+  | Some f => forall ch s, live ch ->
+      f ch s = Ok (ROk tt, mkSink [] (k_chunk_bytes s),
+                   sent_more ch (match k_buf s with [] => [] | _ :: _ => [MChunk (k_buf s)] end))
+  | None => True
+  end /\
+  match gen_sink_write with
+  | Some f => forall ch s data n, live ch -> k_chunk_bytes s = N.of_nat n -> (0 < n)%nat -> (length (k_buf s) < n)%nat ->
+      f ch s data = Ok (ROk (len_n data), mkSink (snd (sink_write (S (length data)) n (k_buf s) data)) (N.of_nat n),
+                        sent_more ch (map MChunk (fst (sink_write (S (length data)) n (k_buf s) data))))
+  | None => True
+  end /\
+  match gen_sink_flush_remaining with
+  | Some f => forall ch s,
+      let tail := match k_buf s with [] => [] | _ :: _ => [MChunk (k_buf s)] end in
+      f ch s = Ok (if fits ch (length tail) then ROk tt else RErr IoBrokenPipe, mkSink [] (k_chunk_bytes s), send_all ch tail)
+  | None => True
+  end /\
+  match gen_sink_write with
+  | Some f => forall ch s data n, k_chunk_bytes s = N.of_nat n -> (0 < n)%nat -> (length (k_buf s) < n)%nat ->
+      let cs := fst (sink_write (S (length data)) n (k_buf s) data) in
+      f ch s data =
+      if fits ch (length cs)
+      then Ok (ROk (len_n data), mkSink (snd (sink_write (S (length data)) n (k_buf s) data)) (N.of_nat n), send_all ch (map MChunk cs))
+      else Ok (RErr IoBrokenPipe, mkSink [] (N.of_nat n), send_all ch (map MChunk cs))
+  | None => True
+  end /\
+  match gen_sink_flush with Some f => forall ch s, f ch s = Ok (ROk tt, s, ch) | None => True end /\
+  match gen_produce with
+  | Some f => forall ch script opts n, live ch -> o_chunk_bytes opts = N.of_nat n -> (0 < n)%nat ->
+      f ch script opts =
+      let '(ws, failed, rest) := steps_run (steps_of (o_compression opts)) script in
+      Ok (tt, sent_more ch (produce n ws failed), rest)
+  | None => True
+  end /\
+  match gen_session_recv with
+  | Some f => forall s, f s = Ok (fst (recv (s_rx s)), mkSession (snd (recv (s_rx s))) (s_look s) (s_done s))
+  | None => True
+  end /\
+  match gen_session_pull with
+  | Some f => forall s, f s = Ok (pulled_res (fst (session_pull s)), snd (session_pull s))
+  | None => True
+  end /\
+  match gen_table_new with Some f => f = Ok (mkTable 1 []) | None => True end /\
+  match gen_table_get with Some f => forall t id, f t id = Ok (m_get (tb_sessions t) id, t) | None => True end /\
+  match gen_table_remove with
+  | Some f => forall t id, f t id = Ok (tt, mkTable (tb_next_id t) (m_del (tb_sessions t) id))
+  | None => True
+  end /\
+  match gen_next_handle with
+  | Some f => forall decoded h,
+      f decoded h =
+      match decoded with
+      | RErr _ => Ok (ROk (SResp (resp_err ERRC_InvalidBody)), h)
+      | ROk id =>
+          let m := tb_sessions (nh_table h) in
+          Ok (ROk (SResp (fst (next_handler (m_get m id)))),
+              mkHandler (mkTable (tb_next_id (nh_table h)) (store_entry m id (snd (next_handler (m_get m id))))))
+      end
+  | None => True
+  end /\
+  match gen_cancel_handle with
+  | Some f => forall decoded h,
+      f decoded h =
+      Ok (ROk SAck, match decoded with
+                    | ROk id => mkHandler (mkTable (tb_next_id (nh_table h)) (m_del (tb_sessions (nh_table h)) id))
+                    | RErr _ => h
+                    end)
+  | None => True
+  end.
+Check C09_source_translation_model :
+  (forall m id t, m_get (store_entry m id t) id = match m_get m id with Some _ => t | None => None end) /\
+  (forall m id id' t, id' <> id -> m_get (store_entry m id t) id' = m_get m id') /\
+  (forall m id, m_get (m_del m id) id = cancel_handler (m_get m id)) /\
+  (forall n f data buf, (0 < n)%nat -> (length buf < n)%nat -> (length (snd (sink_write f n buf data)) < n)%nat) /\
+  (forall n buf w, sink_writes n buf [w] = sink_write (S (length w)) n buf w) /\
+  (forall n ws failed, open_handler n ws failed = Some (mkSession (produce n ws failed) None false)) /\
+  (forall c ms, live c -> send_all c ms = sent_more c ms /\ (forall k, fits c k = true)).
+
+(** the definitions used above are the plain ones *)
+Check (eq_refl : live = fun c => tx_left c = None).
+Check (eq_refl : sent_more = fun c ms => mkTx (tx_sent c ++ ms) (tx_left c)).
+Check (eq_refl : send_all = fun c ms =>
+  match tx_left c with
+  | None => mkTx (tx_sent c ++ ms) None
+  | Some k => mkTx (tx_sent c ++ firstn k ms) (Some (k - length ms)%nat)
+  end).
+Check (eq_refl : fits = fun c k => match tx_left c with None => true | Some b => (k <=? b)%nat end).
+Check (eq_refl : wwrites = fun ops => flat_map (fun o => match o with WWrite b => [b] | WFlush => [] end) ops).
+Check (eq_refl : steps_of = fun c => match c with CoNone => 1%nat | CoZstd => 3%nat end).
+Check (eq_refl : steps_run = fix steps_run (k : nat) (script : list wstep) : list (list byte) * bool * list wstep :=
+  match k with
+  | O => ([], false, script)
+  | S k' =>
+      match script with
+      | [] => steps_run k' []
+      | st :: rest =>
+          match ws_res st with
+          | Some _ => (wwrites (ws_ops st), true, rest)
+          | None => let '(ws, f, r) := steps_run k' rest in (wwrites (ws_ops st) ++ ws, f, r)
+          end
+      end
+  end).
+Check (eq_refl : pulled_res = fun p => match p with PChunk c l => ROk (c, l) | PErr => RErr TOpaque end).
+Check (eq_refl : store_entry = fun m id t => match t with Some s => m_put m id s | None => m_del m id end).
+Check (eq_refl : (ERRC_InvalidQuery, ERRC_InternalError, ERRC_InvalidBody) = (EC_INVALID_QUERY, EC_INTERNAL, 4)).
+Check svs_error_codes_agree :
+  agrees src_ErrorCode_InvalidQuery ERRC_InvalidQuery /\ agrees src_ErrorCode_InvalidBody ERRC_InvalidBody /\
+  agrees src_ErrorCode_MethodNotFound ERRC_MethodNotFound /\ agrees src_ErrorCode_ResourceExhausted ERRC_ResourceExhausted /\
+  agrees src_ErrorCode_InternalError ERRC_InternalError.
+
+Print Assumptions C09_source_translation.
+Print Assumptions C09_source_translation_model.
+Print Assumptions svs_error_codes_agree.
